@@ -245,6 +245,18 @@ def g_ReportPriority(rng):
     return be(len(body), 4) + body + slack(rng)
 
 
+def big_element_status(rng):
+    """one element status page whose BYTE COUNT OF DESCRIPTOR DATA AVAILABLE needs all three bytes,
+    followed by a small second page"""
+    edl = 88
+    n = 746                      # 746 * 88 = 65648 > 65535
+    descr = b"".join(edge(rng, edl) for _ in range(n))
+    pages = bytearray([2, 0xC0]) + be(edl, 2) + bytearray(1) + be(len(descr), 3) + descr
+    d2 = edge(rng, 16)
+    pages += bytearray([4, 0]) + be(16, 2) + bytearray(1) + be(16, 3) + d2
+    return edge(rng, 4) + bytearray(1) + be(len(pages), 3) + pages
+
+
 GEN = {k[2:]: v for k, v in list(globals().items()) if k.startswith("g_")}
 
 
